@@ -50,12 +50,12 @@ theorem strToCommaDecimal_some (env : CsvEnv) (s : String) (v : Option Dec) (h :
   | none => simp [hp] at h
   | some d => simp [hp] at h; exact ⟨d, h.symm, rfl⟩
 
-/-- credit / debit columns: `+credit` when the credit cell is non-empty, `−debit` otherwise -/
+/-- credit / debit columns: `+credit` when the credit cell holds something other than zero (or the debit cell is empty),
+`−debit` otherwise (after fix F41) -/
 theorem sign_credit_debit (env : CsvEnv) (fm : FieldMap) (at_ : AccountType) (rec : List String)
     (cf df : CsvField) (a : Dec) (hv : fm.value = .creditDebit cf df) (h : fm.amount env at_ rec = .ok a) :
     ∃ credit debit, fm.resolve .credit cf rec = .ok (some credit) ∧ fm.resolve .debit df rec = .ok (some debit) ∧
-      ((credit.isEmpty = false ∧ env.parseAmt credit = some a) ∨
-       (credit.isEmpty = true ∧ debit.isEmpty = false ∧ ∃ d, env.parseAmt debit = some d ∧ a = d.negate)) := by
+      CreditDebitRule env.parseAmt credit debit a := by
   unfold FieldMap.amount at h
   simp only [hv] at h
   split at h <;> try (simp at h; done)
@@ -74,16 +74,37 @@ theorem sign_credit_debit (env : CsvEnv) (fm : FieldMap) (at_ : AccountType) (re
       obtain ⟨d, hv', hp⟩ := strToCommaDecimal_some env debit v hs hde'
       subst hv'
       simp at h
-      exact Or.inr ⟨hce, hde', d, hp, h.symm⟩
+      exact Or.inr ⟨hde', Or.inl hce, d, hp, h.symm⟩
   · have hce' : credit.isEmpty = false := by simpa using hce
     simp only [hce', Bool.not_false, if_true] at h
     split at h <;> try (simp at h; done)
     rename_i v hs
-    obtain ⟨d, hv', hp⟩ := strToCommaDecimal_some env credit v hs hce'
+    obtain ⟨c0, hv', hp⟩ := strToCommaDecimal_some env credit v hs hce'
     subst hv'
-    simp at h
-    subst h
-    exact Or.inl ⟨hce', hp⟩
+    simp only [Option.getD_some] at h
+    by_cases hz : (c0.isZero && !debit.isEmpty) = true
+    · simp only [hz, if_true] at h
+      have hz1 : c0.isZero = true := by
+        cases hcz : c0.isZero <;> simp [hcz] at hz ⊢
+      have hde' : debit.isEmpty = false := by
+        cases hdz : debit.isEmpty <;> simp [hdz] at hz ⊢
+      split at h <;> try (simp at h; done)
+      rename_i w hs2
+      obtain ⟨d, hw, hpd⟩ := strToCommaDecimal_some env debit w hs2 hde'
+      subst hw
+      simp at h
+      exact Or.inr ⟨hde', Or.inr ⟨hce', c0, hp, hz1⟩, d, hpd, h.symm⟩
+    · have hz' : (c0.isZero && !debit.isEmpty) = false := by simpa using hz
+      simp only [hz', Bool.false_eq_true, if_false] at h
+      simp at h
+      subst h
+      refine Or.inl ⟨hce', hp, ?_⟩
+      cases hcz : c0.isZero
+      · exact Or.inl rfl
+      · right
+        cases hdz : debit.isEmpty
+        · simp [hcz, hdz] at hz'
+        · rfl
 
 /-- `amount` column: the amount for an asset account, its negation for a liability account (empty cell = zero) -/
 theorem sign_amount (env : CsvEnv) (fm : FieldMap) (at_ : AccountType) (rec : List String)
@@ -300,8 +321,10 @@ def AmountWritten (fm : FieldMap) (at_ : AccountType) (rec : List String) (a : D
         | .liability => (v.getD {}).negate)
   | .creditDebit cf df => ∃ credit debit, fm.resolve .credit cf rec = .ok (some credit) ∧
       fm.resolve .debit df rec = .ok (some debit) ∧
-      ((credit.isEmpty = false ∧ NumCell credit (some a)) ∨
-       (credit.isEmpty = true ∧ debit.isEmpty = false ∧ ∃ d, NumCell debit (some d) ∧ a = d.negate))
+      ((credit.isEmpty = false ∧ NumCell credit (some a) ∧ (a.isZero = false ∨ debit.isEmpty = true)) ∨
+       (debit.isEmpty = false ∧
+         (credit.isEmpty = true ∨ (credit.isEmpty = false ∧ ∃ c0, NumCell credit (some c0) ∧ c0.isZero = true)) ∧
+         ∃ d, NumCell debit (some d) ∧ a = d.negate))
 
 theorem NumCell.clean {cell : String} {v : Option Dec} (h : NumCell cell v) : cleanDec (v.getD {}) = true := by
   rcases h with ⟨_, rfl⟩ | ⟨_, d, rfl, _, _, hc⟩
@@ -325,13 +348,19 @@ theorem amount_written (pd : String → Option Date) (cap : Captures) (fm : Fiel
       · rw [hl rfl, cleanDec_negate]; exact hn.clean
   | creditDebit cf df =>
     obtain ⟨credit, debit, h1, h2, h3⟩ := CellsUse.sign_credit_debit _ fm at_ rec cf df a hv h
-    rcases h3 with ⟨he, hp⟩ | ⟨he, hd, d, hp, rfl⟩
+    rcases h3 with ⟨he, hp, hnz⟩ | ⟨hd, hc0, d, hp, rfl⟩
     · have hp' : cellDecimal credit = some a := hp
       obtain ⟨hw, hcl⟩ := cellDecimal_written credit a hp'
-      exact ⟨⟨credit, debit, h1, h2, Or.inl ⟨he, Or.inr ⟨he, a, rfl, hp', hw, hcl⟩⟩⟩, hcl⟩
+      exact ⟨⟨credit, debit, h1, h2, Or.inl ⟨he, Or.inr ⟨he, a, rfl, hp', hw, hcl⟩, hnz⟩⟩, hcl⟩
     · have hp' : cellDecimal debit = some d := hp
       obtain ⟨hw, hcl⟩ := cellDecimal_written debit d hp'
-      exact ⟨⟨credit, debit, h1, h2, Or.inr ⟨he, hd, d, Or.inr ⟨hd, d, rfl, hp', hw, hcl⟩, rfl⟩⟩,
+      have hc0' : credit.isEmpty = true ∨ (credit.isEmpty = false ∧ ∃ c0, NumCell credit (some c0) ∧ c0.isZero = true) := by
+        rcases hc0 with hce | ⟨hce, c0, hpc, hz⟩
+        · exact Or.inl hce
+        · have hpc' : cellDecimal credit = some c0 := hpc
+          obtain ⟨hwc, hclc⟩ := cellDecimal_written credit c0 hpc'
+          exact Or.inr ⟨hce, c0, Or.inr ⟨hce, c0, rfl, hpc', hwc, hclc⟩, hz⟩
+      exact ⟨⟨credit, debit, h1, h2, Or.inr ⟨hd, hc0', d, Or.inr ⟨hd, d, rfl, hp', hw, hcl⟩, rfl⟩⟩,
         by rw [cleanDec_negate]; exact hcl⟩
 
 /-- the value and the decimal places of a number cell's decimal (`0`, no places, for an empty cell) -/
@@ -680,8 +709,9 @@ theorem AmountWritten.value {fm : FieldMap} {at_ : AccountType} {rec : List Stri
          (cell.isEmpty = false ∧ ∃ x, CellWritten cell x a.scale ∧ a.toRat = at_.signed x))
     | .creditDebit cf df => ∃ credit debit, fm.resolve .credit cf rec = .ok (some credit) ∧
         fm.resolve .debit df rec = .ok (some debit) ∧
-        ((credit.isEmpty = false ∧ CellWritten credit a.toRat a.scale) ∨
-         (credit.isEmpty = true ∧ debit.isEmpty = false ∧ ∃ x, CellWritten debit x a.scale ∧ a.toRat = -x)) := by
+        ((credit.isEmpty = false ∧ CellWritten credit a.toRat a.scale ∧ (a.isZero = false ∨ debit.isEmpty = true)) ∨
+         (debit.isEmpty = false ∧ (credit.isEmpty = true ∨ (credit.isEmpty = false ∧ ∃ s0, CellWritten credit 0 s0)) ∧
+            ∃ x, CellWritten debit x a.scale ∧ a.toRat = -x)) := by
   unfold AmountWritten at h
   cases hv : fm.value with
   | amount f =>
@@ -701,16 +731,26 @@ theorem AmountWritten.value {fm : FieldMap} {at_ : AccountType} {rec : List Stri
     rw [hv] at h
     obtain ⟨credit, debit, h1, h2, h3⟩ := h
     refine ⟨credit, debit, h1, h2, ?_⟩
-    rcases h3 with ⟨he, hn⟩ | ⟨he, hd, d, hn, rfl⟩
+    rcases h3 with ⟨he, hn, hnz⟩ | ⟨hd, hc0, d, hn, rfl⟩
     · left
       rcases hn with ⟨_, h0⟩ | ⟨_, d, h0, _, hw, _⟩
       · cases h0
-      · injection h0 with h0; subst h0; exact ⟨he, hw⟩
+      · injection h0 with h0; subst h0; exact ⟨he, hw, hnz⟩
     · right
+      have hc0' : credit.isEmpty = true ∨ (credit.isEmpty = false ∧ ∃ s0, CellWritten credit 0 s0) := by
+        rcases hc0 with hce | ⟨hce, c0, hnc, hz⟩
+        · exact Or.inl hce
+        · rcases hnc with ⟨_, h0⟩ | ⟨_, c1, h0, _, hwc, _⟩
+          · cases h0
+          · injection h0 with h0; subst h0
+            have h0r : c0.toRat = 0 := by
+              have hm : c0.mant = 0 := by simpa [Dec.isZero] using hz
+              simp [Dec.toRat, hm, Rat.div_def]
+            exact Or.inr ⟨hce, c0.scale, by rw [← h0r]; exact hwc⟩
       rcases hn with ⟨_, h0⟩ | ⟨_, d', h0, _, hw, _⟩
       · cases h0
       · injection h0 with h0; subst h0
-        exact ⟨he, hd, d.toRat, hw, Dec.negate_toRat d⟩
+        exact ⟨hd, hc0', d.toRat, hw, Dec.negate_toRat d⟩
 
 /-! ## the whole statement: every imported transaction comes from one record -/
 
